@@ -27,21 +27,29 @@ struct RNode
 // sequence recorded in either tier means the same document under params_max()
 struct Params
 {
-  int NH;      // header forms
-  int NL;      // whitespace layouts
-  int NP;      // comment patterns
-  int NPROPS;  // property sets per node
-  int NTEXT;   // text contents
+  int NH;    // header forms
+  int NL;    // whitespace layouts
+  int NP;    // comment patterns (prefix of PATTERNS)
+  int NPR;   // property sets of the root element (prefix of PROPSETS)
+  int NPC;   // property sets of the child elements (prefix of PROPSETS)
+  int NTEXT; // text contents
   int MAXCHAIN;
 };
 inline Params params_quick()
 {
-  Params p = {2, 2, 4, 7, 1, 8};
+  Params p = {2, 2, 8, 12, 4, 1, 8};
   return p;
 }
 inline Params params_thorough()
 {
-  Params p = {4, 3, 5, 10, 2, 8};
+  Params p = {4, 3, 14, 16, 5, 2, 8};
+  return p;
+}
+// base documents of the mutation part: the quick space with one empty attribute and one
+// dash-ended comment body
+inline Params params_mutbase()
+{
+  Params p = {2, 2, 5, 8, 4, 1, 8};
   return p;
 }
 inline Params params_max()
@@ -52,7 +60,21 @@ inline Params params_max()
 static const char *const HEADERS[4] = {"", "<?xml version=\"1.0\"?>", "<?xml?>", "<?xml version='1.0' encoding=\"UTF-8\" ?>"};
 static const char *const NAMES[2] = {"a", "b_1"};
 static const char *const TEXTS[2] = {"t u", "p=\"q' /> -- ?> \\"};
-static const char *const COMMENTS[2] = {"<!--c-->", "<!-- <x k=\"1'> - -- > </x -->"};
+// comment bodies (between "<!--" and "-->").  Bodies that start with '>' or "->" are not in the
+// supported subset: the reader starts looking for "-->" right after "<!", so "<!-->x-->" ends at
+// "<!-->" (observed on the clean tree: <a><!-->x--><b/></a> returns a{x-->}(b)).
+static const char *const BODIES[9] = {"c", "a-", "a--", "-", " <x k=\"1'> -- y -> z > </x ", "--", "---", "", "-x"};
+struct Pattern
+{
+  int mask;  // 0 none, 1 every slot, 2 even slots, 3 odd slots
+  int body;
+};
+static const Pattern PATTERNS[16] = {
+    {0, 0}, {1, 0}, {2, 0}, {3, 0},
+    {1, 1},                          // body ends in one dash: "<!--a--->"      (mutation base: first 5)
+    {1, 2}, {1, 3}, {1, 4},          // ends in two dashes; only a dash; "--", "->", '>', '<', quotes inside   (quick: first 8)
+    {2, 1}, {3, 1}, {1, 5}, {1, 6}, {1, 7}, {1, 8}, {3, 3}, {2, 4},
+};
 
 struct PropDef
 {
@@ -63,20 +85,27 @@ struct PropDef
 struct PropSet
 {
   int n;
-  PropDef p[2];
+  PropDef p[3];
 };
-static const PropSet PROPSETS[10] = {
-    {0, {{"", 0, ""}, {"", 0, ""}}},
-    {1, {{"k", '"', "v"}, {"", 0, ""}}},
-    {1, {{"k", '\'', "v"}, {"", 0, ""}}},
-    {2, {{"k", '"', "v"}, {"l", '"', "w x"}}},
-    {2, {{"k", '"', "v"}, {"l", '\'', "w x"}}},
-    {2, {{"k", '\'', "v"}, {"l", '"', "w x"}}},
-    {2, {{"k", '\'', "v"}, {"l", '\'', "w x"}}},
+#define C16_NOPROP {"", 0, ""}
+static const PropSet PROPSETS[16] = {
+    {0, {C16_NOPROP, C16_NOPROP, C16_NOPROP}},
+    {1, {{"k", '\'', "v"}, C16_NOPROP, C16_NOPROP}},
+    {2, {{"k", '"', "v"}, {"l", '\'', "w x"}, C16_NOPROP}},
+    {2, {{"k", '"', "v"}, {"l", '"', ""}, C16_NOPROP}},      // empty value after a non-empty one   (children, quick: first 4)
+    {1, {{"k", '"', "v"}, C16_NOPROP, C16_NOPROP}},
+    {2, {{"k", '\'', "v"}, {"l", '"', "w x"}, C16_NOPROP}},
+    {2, {{"k", '"', "v"}, {"l", '"', "w x"}, C16_NOPROP}},
+    {2, {{"k", '\'', "v"}, {"l", '\'', "w x"}, C16_NOPROP}},  // (mutation base root: first 8)
+    {2, {{"k", '\'', "v"}, {"l", '\'', ""}, C16_NOPROP}},     // empty after non-empty, single quotes
+    {2, {{"k", '"', ""}, {"l", '"', "w x"}, C16_NOPROP}},     // empty before non-empty
+    {2, {{"k", '\'', ""}, {"l", '\'', "w x"}, C16_NOPROP}},
+    {2, {{"k", '"', "v"}, {"l", '"', "v"}, C16_NOPROP}},      // two attributes with equal values   (root, quick: first 12)
     // thorough only
-    {2, {{"k", '"', ""}, {"l", '\'', ""}}},                 // empty values
-    {2, {{"l", '"', "i'j"}, {"k", '\'', "i\"j"}}},         // the other quote inside, names not in map order
-    {1, {{"_k2.x", '"', "<a/> > = / <!--"}, {"", 0, ""}}},  // identifier with _ digit . ; markup characters inside a value
+    {2, {{"k", '"', ""}, {"l", '\'', ""}, C16_NOPROP}},                      // both empty
+    {2, {{"l", '"', "i'j"}, {"k", '\'', "i\"j"}, C16_NOPROP}},               // the other quote inside, names not in map order
+    {1, {{"_k2.x", '"', "<a/> > = / <!--"}, C16_NOPROP, C16_NOPROP}},       // identifier with _ digit . ; markup characters inside a value
+    {3, {{"k", '"', "v"}, {"l", '\'', ""}, {"m", '"', "v"}}},                 // non-empty, empty, equal to the first
 };
 
 // ------------------------------------------------------------------------------ choice source
@@ -183,12 +212,12 @@ struct Gen
   void comment_slot(int depth)
   {
     int s = slot++;
-    int mask = pattern < 4 ? pattern : pattern - 3;  // 0 none, 1 every slot, 2 even slots, 3 odd slots
+    int mask = PATTERNS[pattern].mask;
     bool on = mask == 1 || (mask == 2 && s % 2 == 0) || (mask == 3 && s % 2 == 1);
     if (!on)
       return;
     brk(depth);
-    doc += COMMENTS[pattern < 4 ? 0 : 1];  // pattern 4: every slot, second comment text
+    doc += std::string("<!--") + BODIES[PATTERNS[pattern].body] + "-->";
   }
   void emit_props(const PropSet &ps, int depth, RNode &n)
   {
@@ -212,7 +241,7 @@ struct Gen
   void element(int depth, int maxdepth, RNode &out)
   {
     out.name = NAMES[c.choose(2)];
-    const PropSet &ps = PROPSETS[c.choose(P.NPROPS)];
+    const PropSet &ps = PROPSETS[c.choose(depth == 0 ? P.NPR : P.NPC)];
     int kind = c.choose(depth < maxdepth ? 9 : 3);
     brk(depth);
     doc += "<" + out.name;
